@@ -14,8 +14,7 @@ RULE = ("bond and site percolation on random networks of 1..9 nodes (no edges, s
         "sample specs as counts and as lists with and without 0 and 1; scripted occupation orders; every sample is compared with the Lean model; "
         "beside it the BFS oracle recomputes gcc, number of components, every componentSize(n), the working network (= occupied elements) and the "
         "occupation count at which each labelled sample is due. non-trivial = run with >= 3 samples and >= 2 occupations; distinct = distinct spec")
-PARTIAL = ["site percolation: connectivity and stored component sizes are a theorem (site_samples_true, by reduction to the bond invariant with unoccupied "
-           "sites viewed as singletons); its gcc / ncomponents counters are tied by replay and the BFS oracle only"]
+PARTIAL = []
 
 
 def _jobs(ctx):
